@@ -73,7 +73,7 @@ class Prop:
     id = "C32"
     level = "exploration"
     engine = "TH (controlled threads: baton passing, line-level pre-emption points, simulated locks/conditions/clock)"
-    quick_runs = 8000
+    quick_runs = 20000
     thorough_runs = 300000
     quick_budget = 80.0
     chunk = 100
